@@ -323,6 +323,67 @@ def scenario(case):
         rig.close()
 
 
+def dash_tree(fallback):
+    """tree operations on a directory whose name begins with '-', addressed by its bare relative name"""
+    rig = Rig(tree={"w": {"-x": {"inner": b"in", "sub": {"deep": b"d"}, "void": {}}, "top": b"t", "other": {"o": b"o"}}},
+              server_kwargs={"block_size": 7})
+    w = rig.world
+    a = w.aioftp
+    if fallback:
+        rig.server.commands_mapping.pop("mlst")
+        rig.server.commands_mapping.pop("mlsd")
+    problems = []
+    client = a.Client(path_io_factory=a.MemoryPathIO)
+
+    async def main():
+        await client.connect("127.0.0.1", 2121)
+        await client.login()
+        await client.change_directory("/w")
+        got = sorted((str(p_), i["type"]) for p_, i in await client.list("-x", recursive=True))
+        want = sorted([("-x/inner", "file"), ("-x/sub", "dir"), ("-x/sub/deep", "file"), ("-x/void", "dir")])
+        if got != want:
+            problems.append({"kind": "recursive-list", "got": got, "want": want})
+            return
+        await client.download("-x", "/dl", write_into=True)
+        snap = snapshot_client(client.path_io)
+        want_dl = {"/dl": None, "/dl/inner": b"in", "/dl/sub": None, "/dl/sub/deep": b"d", "/dl/void": None}
+        if snap != want_dl:
+            problems.append({"kind": "downloaded-tree", "got": sorted(snap), "want": sorted(want_dl)})
+            return
+        await client.remove("-x")
+        await client.quit()
+
+    try:
+        try:
+            w.run(main())
+        except Hang:
+            problems.append({"kind": "hang"})
+        except Exception as exc:
+            problems.append({"kind": "exception", "exc": repr(exc)[:300]})
+        if not problems:
+            want = {"/w": None, "/w/top": b"t", "/w/other": None, "/w/other/o": b"o"}
+            if rig.snapshot() != want:
+                problems.append({"kind": "remove", "got": sorted(rig.snapshot()), "want": sorted(want)})
+        return problems, w.net.n_events
+    finally:
+        rig.close()
+
+
+def dash_work(fallback):
+    part = report.Partial()
+    problems, nev = dash_tree(fallback)
+    part.evaluations += 1
+    part.traces += 1
+    part.transitions += nev
+    k = report.fp(["dash-tree", fallback])
+    part.states.add(k)
+    part.nontrivial.add(k)
+    for p in problems[:1]:
+        part.violation({"kind": p["kind"], "op": "dash-named tree", "fallback": fallback}, {"problem": p},
+                       replay={"dash": fallback})
+    return part
+
+
 def work(item):
     part = report.Partial()
     for case in item:
@@ -429,8 +490,9 @@ def run(tier, seed, t0):
     if seed:
         k = seed % len(items)
         items = items[k:] + items[:k]
-    part = report.merge_all(report.pmap(work, items))
-    bounds = {"sources": nsrc, "max_nodes": 4 if tier == "quick" else 5, "names": ["a", "b"], "destinations": DESTS, "write_into": [False, True],
+    part = report.merge_all(report.pmap(work, items) + [dash_work(False), dash_work(True)])
+    bounds = {"dash_names": "list / download / remove of a directory named -x by its bare relative name (MLSD and LIST-only)",
+              "sources": nsrc, "max_nodes": 4 if tier == "quick" else 5, "names": ["a", "b"], "destinations": DESTS, "write_into": [False, True],
               "remote_cwd": ["/", "/w"], "block_sizes": [1, 8192], "servers": ["MLSD", "LIST fallback"], "encodings": ["utf-8", "latin-1 with non-ASCII names (trees <= 3 nodes)"],
               "old_entries": "LIST-only server, entries dated 2024-02-29, 2023-12-31 23:59:59, 1971, 2099, 2000-02-29 seen from 2025-06-01",
               "short_reading_backends": "read() capped at 1 or 3 bytes on the client's and the server's backend (trees <= 3 nodes)",
@@ -449,6 +511,10 @@ def run(tier, seed, t0):
 
 def replay(path):
     data = json.loads(open(path).read())
+    if "dash" in data["replay"]:
+        problems, _ = dash_tree(data["replay"]["dash"])
+        print(json.dumps(problems, indent=1, default=repr))
+        return 1 if problems else 0
     case = data["replay"]["case"]
     case["tree"] = _dec(case["tree"])
     problems, _ = scenario(case)
